@@ -83,8 +83,9 @@ struct UnusedVariableVisitor {
     unused: Vec<UnusedLocalVar>,
 
     /// For let bindings, track the removal position (from `let` to value expr).
-    /// Key is the interned symbol ID.
-    let_removal_positions: FxHashMap<InternedSymbolId, Position>,
+    /// Key is the start offset of the bound symbol, so another
+    /// binding of the same name doesn't pick up this removal.
+    let_removal_positions: FxHashMap<usize, Position>,
 
     /// Is the next expression visited the last expression of its
     /// block?
@@ -262,7 +263,7 @@ impl UnusedVariableVisitor {
             .pop()
             .expect("Tried to pop an empty scope stack.");
 
-        for (id, name, use_state) in scope.into_iter() {
+        for (_, name, use_state) in scope.into_iter() {
             // TODO: Use the actual receiver symbol name rather than
             // hardcoding `self` here.
             if name.to_string().starts_with('_') || name.to_string() == "self" {
@@ -271,7 +272,9 @@ impl UnusedVariableVisitor {
 
             if let UseState::NotUsed(position) = use_state {
                 // Check if this is a let binding with removal info
-                let fix = if let Some(removal_position) = self.let_removal_positions.remove(&id) {
+                let fix = if let Some(removal_position) =
+                    self.let_removal_positions.remove(&position.start_offset)
+                {
                     UnusedVarFix::RemoveLet { removal_position }
                 } else {
                     UnusedVarFix::Rename
@@ -573,7 +576,7 @@ impl Visitor for UnusedVariableVisitor {
                 }
                 LetDestination::Symbol(symbol) => {
                     self.let_removal_positions
-                        .insert(symbol.interned_id, removal_position);
+                        .insert(symbol.position.start_offset, removal_position);
                 }
                 LetDestination::Destructure(_) => {
                     // For destructuring, we can't simply remove the let,
